@@ -221,6 +221,21 @@ CHECKS = {
          "The fee threshold is judged for the canonical encoding; for non-minimal encodings only soundness against the canonical size and proposability are judged. "
          "Contract-based witnesses are judged only for PoolTx/VerifyTx consistency. The replica is a second Blockchain fed wire bytes (consensus exchange is C19).",
          "spec-as-oracle enumeration by TLC; TLC trace validation; wire-round-trip replication on an independent replica"),
+ "C09": ("model_checking",
+         "TLC exhaustively checks the code-shaped read-path model (KVSeekImpl: lookup through layers with tombstones, performSeek's merge of the sorted cached "
+         "snapshot with the lower store's ordered scan, SearchDepth, prefix trimming) against the abstract ordered map KVStore for every stack of the universe and "
+         "every range (prefix x start x direction x SearchDepth x trimming): Result = Ref and Get = Ref (quick: 6 keys, <=3 entries, 2 layers; thorough: 8 keys with "
+         "336 ranges per stack, 3 layers, depth 0-3). Backend range translations are decided at table level over a 37-key universe; every flush step leaves the map "
+         "unchanged. KVPersistConc (writer / Persist as three steps incl. the backend-failure restore path / reader) is checked over all interleavings: a point read "
+         "is exact in every Persist window, a committed key is never missing, no stale value. Model counterexamples, TLC simulation behaviours and seeded random "
+         "histories are executed on real MemCachedStore stacks 1-5 deep (shared, private, dao.Simple, System.Storage.Find, SeekGC) over MemoryStore, BoltDB and "
+         "LevelDB; concurrent schedules are replayed exactly through a gating backend; every answer is recomputed by TLC (KVTrace, KVConcTrace).",
+         "DESIGN.md section 4 C09",
+         "Trusted: TLC; the harness's split of batches; gates only at the backend's PutChangeSet entry/exit and Seek entry; the reference for a backward bound is "
+         "prefix-inclusive (production backends' behaviour, callers rely on it). Values 2-3 bytes, keys <= 24 bytes. A LevelDB-only mismatch counts only if it "
+         "reproduces on a fresh database (goleveldb's OpenTransaction path occasionally loses a batch: third-party, observed, not judged). Judged concurrent "
+         "predicate: NoHalfBatch / never-missing / no-stale; one open known finding (seek-half-batch).",
+         "two-level TLA+ spec; TLC exhaustive Impl=>Abstract; counterexamples and simulations replayed on real stores; gated schedule replay; TLC trace judging"),
 }
 
 NOT_YET = {}   # id -> reason (properties not (yet) claimed)
